@@ -3,6 +3,7 @@
 package main
 
 import (
+	"encoding/json"
 	"fmt"
 	"sort"
 	"strings"
@@ -13,6 +14,7 @@ import (
 	"github.com/pentops/j5/gen/j5/schema/v1/schema_j5pb"
 	"github.com/pentops/j5/gen/j5/source/v1/source_j5pb"
 	"github.com/pentops/j5/gen/j5/sourcedef/v1/sourcedef_j5pb"
+	"github.com/pentops/j5/internal/export"
 	"github.com/pentops/j5/internal/j5client"
 	"github.com/pentops/j5/internal/j5s/j5convert"
 	"github.com/pentops/j5/internal/structure"
@@ -102,8 +104,139 @@ func runKernel(out *sink, op string) string {
 		return kName(out, args[0], args[1], args[2], args[3])
 	case "graph":
 		return kGraph(out, f[1:])
+	case "swag":
+		return kSwagger(out, f[1:])
 	}
 	return "bad-op"
+}
+
+// ---- swag: convertSchema through export.ConvertRootSchema on an object with one property.
+//   tree := any|str|int|float|bool|bytes|dec|date|ts|key|eref|einl|eunset|oref|ounset|uref|uunset|unset|nil
+//         | arr tree | map tree | oinl <n> tree* | uinl <n> tree*
+
+func swagField(d *dec) *schema_j5pb.Field {
+	ref := &schema_j5pb.Ref{Package: "k.v1", Schema: "X"}
+	switch k := d.next(); k {
+	case "any":
+		return &schema_j5pb.Field{Type: &schema_j5pb.Field_Any{Any: &schema_j5pb.AnyField{}}}
+	case "str":
+		return &schema_j5pb.Field{Type: &schema_j5pb.Field_String_{String_: &schema_j5pb.StringField{}}}
+	case "int":
+		return &schema_j5pb.Field{Type: &schema_j5pb.Field_Integer{Integer: &schema_j5pb.IntegerField{Format: schema_j5pb.IntegerField_FORMAT_INT64}}}
+	case "float":
+		return &schema_j5pb.Field{Type: &schema_j5pb.Field_Float{Float: &schema_j5pb.FloatField{Format: schema_j5pb.FloatField_FORMAT_FLOAT64}}}
+	case "bool":
+		return &schema_j5pb.Field{Type: &schema_j5pb.Field_Bool{Bool: &schema_j5pb.BoolField{}}}
+	case "bytes":
+		return &schema_j5pb.Field{Type: &schema_j5pb.Field_Bytes{Bytes: &schema_j5pb.BytesField{}}}
+	case "dec":
+		return &schema_j5pb.Field{Type: &schema_j5pb.Field_Decimal{Decimal: &schema_j5pb.DecimalField{}}}
+	case "date":
+		return &schema_j5pb.Field{Type: &schema_j5pb.Field_Date{Date: &schema_j5pb.DateField{}}}
+	case "ts":
+		return &schema_j5pb.Field{Type: &schema_j5pb.Field_Timestamp{Timestamp: &schema_j5pb.TimestampField{}}}
+	case "key":
+		return &schema_j5pb.Field{Type: &schema_j5pb.Field_Key{Key: &schema_j5pb.KeyField{Format: &schema_j5pb.KeyFormat{Type: &schema_j5pb.KeyFormat_Id62{Id62: &schema_j5pb.KeyFormat_ID62{}}}}}}
+	case "eref":
+		return &schema_j5pb.Field{Type: &schema_j5pb.Field_Enum{Enum: &schema_j5pb.EnumField{Schema: &schema_j5pb.EnumField_Ref{Ref: ref}}}}
+	case "einl":
+		return &schema_j5pb.Field{Type: &schema_j5pb.Field_Enum{Enum: &schema_j5pb.EnumField{Schema: &schema_j5pb.EnumField_Enum{Enum: &schema_j5pb.Enum{Name: "E", Options: []*schema_j5pb.Enum_Option{{Name: "A"}}}}}}}
+	case "eunset":
+		return &schema_j5pb.Field{Type: &schema_j5pb.Field_Enum{Enum: &schema_j5pb.EnumField{}}}
+	case "oref":
+		return &schema_j5pb.Field{Type: &schema_j5pb.Field_Object{Object: &schema_j5pb.ObjectField{Schema: &schema_j5pb.ObjectField_Ref{Ref: ref}}}}
+	case "ounset":
+		return &schema_j5pb.Field{Type: &schema_j5pb.Field_Object{Object: &schema_j5pb.ObjectField{}}}
+	case "uref":
+		return &schema_j5pb.Field{Type: &schema_j5pb.Field_Oneof{Oneof: &schema_j5pb.OneofField{Schema: &schema_j5pb.OneofField_Ref{Ref: ref}}}}
+	case "uunset":
+		return &schema_j5pb.Field{Type: &schema_j5pb.Field_Oneof{Oneof: &schema_j5pb.OneofField{}}}
+	case "unset":
+		return &schema_j5pb.Field{}
+	case "nil":
+		return nil
+	case "arr":
+		return &schema_j5pb.Field{Type: &schema_j5pb.Field_Array{Array: &schema_j5pb.ArrayField{Items: swagField(d)}}}
+	case "map":
+		return &schema_j5pb.Field{Type: &schema_j5pb.Field_Map{Map: &schema_j5pb.MapField{ItemSchema: swagField(d)}}}
+	case "oinl", "uinl":
+		n := d.n()
+		var props []*schema_j5pb.ObjectProperty
+		for i := 0; i < n && d.err == nil; i++ {
+			props = append(props, &schema_j5pb.ObjectProperty{Name: fmt.Sprintf("p%d", i), Schema: swagField(d)})
+		}
+		if k == "oinl" {
+			return &schema_j5pb.Field{Type: &schema_j5pb.Field_Object{Object: &schema_j5pb.ObjectField{Schema: &schema_j5pb.ObjectField_Object{Object: &schema_j5pb.Object{Name: "O", Properties: props}}}}}
+		}
+		return &schema_j5pb.Field{Type: &schema_j5pb.Field_Oneof{Oneof: &schema_j5pb.OneofField{Schema: &schema_j5pb.OneofField_Oneof{Oneof: &schema_j5pb.Oneof{Name: "U", Properties: props}}}}}
+	}
+	d.err = fmt.Errorf("bad tree")
+	return nil
+}
+
+// describeSwagger reads the canonical type description back from the marshalled JSON schema.
+func describeSwagger(v any) string {
+	m, ok := v.(map[string]any)
+	if !ok {
+		return "?"
+	}
+	if _, ok := m["$ref"]; ok {
+		return "ref"
+	}
+	switch m["type"] {
+	case "array":
+		return "array(" + describeSwagger(m["items"]) + ")"
+	case "object":
+		if ap, ok := m["additionalProperties"]; ok {
+			if _, isBool := ap.(bool); isBool {
+				return "any"
+			}
+			return "map(" + describeSwagger(ap) + ")"
+		}
+		props, _ := m["properties"].(map[string]any)
+		parts := make([]string, len(props))
+		for i := range parts {
+			parts[i] = describeSwagger(props[fmt.Sprintf("p%d", i)])
+		}
+		if m["x-is-oneof"] == true {
+			return "oneof{" + strings.Join(parts, ",") + "}"
+		}
+		return "object{" + strings.Join(parts, ",") + "}"
+	}
+	if s, ok := m["type"].(string); ok {
+		return s
+	}
+	return "?"
+}
+
+func kSwagger(out *sink, toks []string) string {
+	d := &dec{toks: toks}
+	f := swagField(d)
+	if d.err != nil || d.pos != len(toks) {
+		return "bad-op"
+	}
+	root := objectRoot("Root", &schema_j5pb.ObjectProperty{Name: "p0", Schema: f})
+	var js []byte
+	r := stage(stageTimeout, func() error {
+		sc, err := export.ConvertRootSchema(root)
+		if err != nil {
+			return err
+		}
+		js, err = json.Marshal(sc)
+		return err
+	})
+	out.count("swag." + r.class)
+	if r.class != "ok" {
+		return r.class
+	}
+	var v map[string]any
+	if err := json.Unmarshal(js, &v); err != nil {
+		out.fail("swag:unreadable-json", err.Error())
+		return "err"
+	}
+	props, _ := v["properties"].(map[string]any)
+	out.emit("N", "")
+	return "ok " + describeSwagger(props["p0"])
 }
 
 // ---- rw: `:name` -> `{snake}`
@@ -636,9 +769,35 @@ func genPathPair(h *vh.H) string {
 	return strings.Join(toks, " ")
 }
 
+func genSwagTree(h *vh.H, depth int, malformed bool) []string {
+	leaves := []string{"any", "str", "int", "float", "bool", "bytes", "dec", "date", "ts", "key", "eref", "einl", "oref", "uref"}
+	if malformed && h.Chance(1, 4) {
+		return []string{vh.Pick(h, []string{"eunset", "ounset", "uunset", "unset", "nil"})}
+	}
+	if depth >= 3 || h.Chance(1, 2) {
+		return []string{vh.Pick(h, leaves)}
+	}
+	switch h.Rng.IntN(4) {
+	case 0:
+		return append([]string{"arr"}, genSwagTree(h, depth+1, malformed)...)
+	case 1:
+		return append([]string{"map"}, genSwagTree(h, depth+1, malformed)...)
+	default:
+		n := h.Rng.IntN(4)
+		out := []string{vh.Pick(h, []string{"oinl", "uinl"}), fmt.Sprint(n)}
+		for k := 0; k < n; k++ {
+			out = append(out, genSwagTree(h, depth+1, malformed)...)
+		}
+		return out
+	}
+}
+
 func genKernel(h *vh.H, i int) string {
 	if h.Chance(1, 5) {
 		return genPathPair(h)
+	}
+	if h.Chance(1, 6) {
+		return "swag " + strings.Join(genSwagTree(h, 0, h.Chance(1, 3)), " ")
 	}
 	switch h.Rng.IntN(5) {
 	case 0: // rw
